@@ -51,8 +51,15 @@ func fillBytes(n int, seed uint64) []byte {
 }
 
 // try runs f and returns the recovered panic value (nil if it returned).
+// rapid's own control-flow panics (t.Fatalf, data overrun while shrinking)
+// are passed on.
 func try(f func()) (p any) {
-	defer func() { p = recover() }()
+	defer func() {
+		p = recover()
+		if p != nil && strings.HasPrefix(fmt.Sprintf("%T", p), "rapid.") {
+			panic(p)
+		}
+	}()
 	f()
 	return nil
 }
@@ -309,7 +316,7 @@ func c14Records(t *rapid.T, rec *ev.Rec) {
 
 	// Truncate keeps exactly the leading fields (and trims trailing empty ones)
 	ks := []int{0, 1, n - 1, n, n + 1, gen.Uniform(t, "k", n+1)}
-	if n > 2 {
+	if n > 2 && n <= 1000 && len(r) <= 100000 { // (each k < n rebuilds the record: fewer for the big ones)
 		ks = append(ks, len(trimmed(rc.fields[:n-1])), n/2)
 	}
 	for _, k := range ks {
